@@ -33,6 +33,14 @@ type c17Input struct {
 	ExtraSeed int64     `json:"extra_seed"`
 	Cluster   bool      `json:"cluster"`
 	Spans     []c17Span `json:"spans,omitempty"`
+	History   []c17Hist `json:"history,omitempty"` // on one long-lived sharder started on Perms[0] (non-cluster cases)
+}
+
+// c17Hist: Set != nil: membership change to these peers (indices into Peers; empty = an empty list, which
+// loadPeerList refuses); otherwise a lookup of Tids[Look].
+type c17Hist struct {
+	Set  *[]int `json:"set,omitempty"`
+	Look int    `json:"look"`
 }
 
 func init() {
@@ -154,6 +162,34 @@ func c17Gen(r *rand.Rand, tier string, i int) any {
 	in.Extra = 40
 	if tier == "thorough" {
 		in.Extra = 400
+	}
+	if !in.Cluster && n >= 2 && r.Intn(100) < 60 {
+		// lookup, membership change, the SAME id again right away, other ids, ...
+		last := r.Intn(len(in.Tids))
+		in.History = append(in.History, c17Hist{Look: last})
+		for k := 2 + r.Intn(5); k > 0; k-- {
+			var l []int
+			switch r.Intn(6) {
+			case 0: // drop one peer
+				p := r.Perm(n)
+				l = p[:n-1]
+			case 1: // a single peer
+				l = []int{r.Intn(n)}
+			case 2: // the full list in another order (no real change)
+				l = r.Perm(n)
+			case 3: // empty (refused)
+				l = []int{}
+			default: // a random non-empty subset in random order
+				p := r.Perm(n)
+				l = p[:1+r.Intn(n)]
+			}
+			in.History = append(in.History, c17Hist{Set: &l})
+			in.History = append(in.History, c17Hist{Look: last}) // the id looked up just before the change
+			for j := r.Intn(3); j > 0; j-- {
+				last = r.Intn(len(in.Tids))
+				in.History = append(in.History, c17Hist{Look: last})
+			}
+		}
 	}
 	if in.Cluster {
 		ns := 5 + r.Intn(6)
@@ -349,6 +385,73 @@ func c17Run(raw json.RawMessage) (Case, error) {
 			seed = orc.add("anything", seed)
 		}
 	}
+	// history on one long-lived sharder; every lookup is repeated on a sharder freshly started on the list in force
+	var hist []string
+	var histSum []string
+	histChanges := 0
+	if len(in.History) > 0 && !in.Cluster {
+		sel := func(ix []int) ([]string, error) {
+			var l []string
+			for _, i := range ix {
+				if i < 0 || i >= len(in.Peers) {
+					return nil, fmt.Errorf("C17: history index")
+				}
+				l = append(l, in.Peers[i])
+			}
+			return l, nil
+		}
+		cur := append([]string{}, perms[0]...)
+		mp := peer.NewMockPeers(cur, cur[0])
+		long := &sharder.DeterministicSharder{Config: &config.MockConfig{}, Logger: &logger.NullLogger{}, Peers: mp}
+		if err := long.Start(); err != nil {
+			return Case{}, fmt.Errorf("C17: history sharder start: %v", err)
+		}
+		addRows := func(list []string) *sharder.DeterministicSharder {
+			f := &sharder.DeterministicSharder{Config: &config.MockConfig{}, Logger: &logger.NullLogger{}, Peers: peer.NewMockPeers(list, list[0])}
+			f.Start()
+			ps, hs := sharder.VerifC17State(f)
+			ppp := 1
+			if len(ps) > 0 {
+				ppp = len(hs) / len(ps)
+			}
+			seed := sharder.VerifC17PeerSeed
+			for j := 0; j < ppp; j++ {
+				for _, a := range list {
+					orc.add(a, seed)
+				}
+				seed = orc.add("anything", seed)
+			}
+			for _, h := range hs {
+				uh[h.Uhash] = true
+			}
+			return f
+		}
+		fresh := addRows(cur)
+		for _, st := range in.History {
+			if st.Set != nil {
+				l, err := sel(*st.Set)
+				if err != nil {
+					return Case{}, err
+				}
+				mp.UpdatePeers(l)
+				if len(l) > 0 {
+					cur = l
+					fresh = addRows(cur)
+				}
+				histChanges++
+				hist = append(hist, cq.App("HSet", crossListNat(*st.Set)))
+				histSum = append(histSum, fmt.Sprintf("peers := %v", l))
+				continue
+			}
+			if st.Look < 0 || st.Look >= len(in.Tids) {
+				return Case{}, fmt.Errorf("C17: history lookup index")
+			}
+			t := in.Tids[st.Look]
+			o, fo := long.WhichShard(t).GetAddress(), fresh.WhichShard(t).GetAddress()
+			hist = append(hist, cq.App("HLook", cq.Nat(st.Look), cq.Nat(ixOf(o)), cq.Nat(ixOf(fo))))
+			histSum = append(histSum, fmt.Sprintf("WhichShard(%q) = %s (fresh sharder: %s)", t, o, fo))
+		}
+	}
 	uhs := make([]uint64, 0, len(uh))
 	for u := range uh {
 		uhs = append(uhs, u)
@@ -410,9 +513,10 @@ func c17Run(raw json.RawMessage) (Case, error) {
 	for k, a := range selfs {
 		selfIx[k] = ixOf(a)
 	}
-	coq := fmt.Sprintf("{| c_peers := %s; c_perms := %s; c_selfs := %s; c_tids := %s; c_hash := %s; c_obs_peers := %s; c_hlists := %s; c_obs_hashes := %s; c_obs_owner := %s; c_spans := %s |}",
+	coq := fmt.Sprintf("{| c_peers := %s; c_perms := %s; c_selfs := %s; c_tids := %s; c_hash := %s; c_obs_peers := %s; c_hlists := %s; c_obs_hashes := %s; c_obs_owner := %s; c_spans := %s; c_hist_start := %s; c_hist := %s |}",
 		crossListPstr(in.Peers), c17ListListNat(in.Perms), crossListNat(selfIx), crossListPstr(in.Tids), orc.coq(),
-		c17ListListNat(obsPeers), cq.List(hlists), crossListNat(obsHashIx), c17ListListNat(obsOwner), cq.List(spanObs))
+		c17ListListNat(obsPeers), cq.List(hlists), crossListNat(obsHashIx), c17ListListNat(obsOwner), cq.List(spanObs),
+		crossListNat(in.Perms[0]), cq.List(hist))
 
 	distinct := map[string]bool{}
 	for _, a := range in.Peers {
@@ -454,14 +558,17 @@ func c17Run(raw json.RawMessage) (Case, error) {
 	if permsDiffer {
 		tags = append(tags, "perms-differ")
 	}
+	if histChanges > 0 {
+		tags = append(tags, "membership-change-history")
+	}
 	own0 := obsOwnerStr[0]
 	if len(own0) > 6 {
 		own0 = own0[:6]
 	}
-	key, _ := json.Marshal([]any{in.Peers, in.Perms, in.Tids, in.Cluster, in.Spans})
+	key, _ := json.Marshal([]any{in.Peers, in.Perms, in.Tids, in.Cluster, in.Spans, in.History})
 	return Case{Coq: coq, Key: string(key), Nontriv: permsDiffer && len(distinct) >= 2, Tags: tags,
 		Summary: map[string]any{"peers": in.Peers, "perms": in.Perms, "tids": in.Tids, "owners_instance0": own0,
-			"cluster": in.Cluster, "spans": spanSum}}, nil
+			"cluster": in.Cluster, "spans": spanSum, "history": histSum}}, nil
 }
 
 func c17Shrink(raw json.RawMessage) []json.RawMessage {
@@ -479,6 +586,15 @@ func c17Shrink(raw json.RawMessage) []json.RawMessage {
 		c := in
 		c.Extra = in.Extra / 2
 		emit(c)
+	}
+	// drop one history step
+	for i := range in.History {
+		c := in
+		c.History = append(append([]c17Hist{}, in.History[:i]...), in.History[i+1:]...)
+		emit(c)
+	}
+	if len(in.History) > 0 {
+		return out // keep indices of the history valid: shrink only the history (and the extras) of such a case
 	}
 	// drop one span
 	for i := range in.Spans {
